@@ -32,6 +32,16 @@ NOT_APPLICABLE = {
 }
 
 MANIFEST_META = {
+    'C20': dict(
+        text='Proof on the real code: Response.make_conditional answers 304 (no body, no Content-type) when If-None-Match '
+             'equals the current ETag, and sets 304 ONLY if the ETag matches or Last-Modified <= a well-formed '
+             'If-Modified-Since (an absent ETag never matches an absent header; a malformed date never gives 304); '
+             'cache_headers builds validators from (timestamp, size) only and emits the no-store directives on request; in '
+             'TMS, WMTS and KML handlers an uncacheable tile is always sent with cache_headers(no_cache=True) and '
+             'validators come from the rendered tile; HTTP dates are read as GMT; file-cache metadata comes from lstat.',
+        note='md5 and date formatting/parsing are uninterpreted functions; headers are a str->str map; the WMS-C path and '
+             'tile_buffer are not yet under contract; defect S8 (WMTS/KML ignored tile.cacheable) was found by this check '
+             'and repaired in /repo commit 4acc6c2'),
     'C02': dict(
         text='Proof on the real code of the address arithmetic between the advertised description objects and the served '
              'tiles: public->internal level mapping (profile shift, sqrt2 skip) and its inverse, TMS tile_sets advertise '
